@@ -319,7 +319,7 @@ ValKind op_value_kind(int op) {
     case OP_T_CASTRT: case OP_JT_MUL: case OP_ZERO: case OP_VEE: case OP_BRACKET_S: case OP_T_RANDOM:
     case OP_TM_ASSIGN: case OP_TM_SETZERO: case OP_TM_SETRANDOM: case OP_TM_PLUSEQ: case OP_TM_MINUSEQ:
     case OP_TM_MULEQ: case OP_TM_DIVEQ: case OP_TM_STREAM: case OP_TM_LOG_INTO: case OP_TM_ASSIGN_EIGEN:
-    case OP_TM_COEFFWRITE: case OP_TM_SETVEE: case OP_TM_BLOCKSET:
+    case OP_TM_COEFFWRITE: case OP_TM_SETVEE: case OP_TM_BLOCKSET: case OP_TM_MOVE_ASSIGN:
       return VK_TAN;
     default: return VK_OTHER;
   }
